@@ -10,12 +10,19 @@
 //! a stale effect is a plain failure; the former witnesses are fixed regression cases that run every time.
 //! Part B (real effects): Delay buffer length (echo position) and Filter output across a rate change.
 //! Part C (scenes): the same scene rendered at many device rates and across mid-stream changes, measured in seconds.
+//! Part D (effects whose parameters are TIMES but whose state is counted in frames): the real Reverb's delay lines
+//! (echo positions of an impulse on either channel, compared with C16/ModelEffects.v `reverb_first_taps` and, as a
+//! monitor, with tuning/44100 seconds to one frame) and the real Compressor's attack / release durations (time
+//! constants read off the output of a level step, in seconds) -- at single rates and after histories of callbacks,
+//! rate changes and parameter changes that the SAME effect instance lived through.
 #![allow(dead_code)]
 use crate::backend::{indexed_sound, sound_from_frames, VBackend, VSettings};
 use crate::util::*;
 use kira::backend::{Backend, Renderer};
 use kira::clock::ClockSpeed;
+use kira::effect::compressor::CompressorBuilder;
 use kira::effect::delay::DelayBuilder;
+use kira::effect::reverb::ReverbBuilder;
 use kira::effect::filter::{FilterBuilder, FilterMode};
 use kira::effect::{Effect, EffectBuilder};
 use kira::info::Info;
@@ -24,6 +31,7 @@ use kira::sound::PlaybackState;
 use kira::track::{MainTrackBuilder, SendTrackBuilder, SendTrackHandle, SpatialTrackBuilder, SpatialTrackHandle, TrackBuilder, TrackHandle};
 use kira::{AudioManager, AudioManagerSettings, Capacities, Decibels, Easing, Frame, Mix, StartTime, Tween};
 use std::cell::RefCell;
+use std::sync::atomic::{AtomicBool, AtomicU32, Ordering};
 use std::sync::{Arc, Mutex};
 use std::time::Duration;
 
@@ -674,6 +682,21 @@ fn noise_sound(rate: u32, n: usize, rng: &mut Rng) -> StaticSoundData {
 enum FxKind {
 	Filter(FilterMode, f64),
 	Delay(u64),
+	/// attack, release in microseconds
+	Compressor(u64, u64),
+	Reverb,
+	Eq(f64),
+}
+impl FxKind {
+	fn name(&self) -> &'static str {
+		match self {
+			FxKind::Filter(..) => "filter",
+			FxKind::Delay(_) => "delay",
+			FxKind::Compressor(..) => "compressor",
+			FxKind::Reverb => "reverb",
+			FxKind::Eq(_) => "eq",
+		}
+	}
 }
 #[derive(Clone, Copy, Debug, PartialEq)]
 enum Order {
@@ -691,7 +714,14 @@ fn effect_across_change(s: &mut Session, rng: &mut Rng, fx: FxKind, order: Order
 	let build = |b: TrackBuilder| match fx {
 		FxKind::Filter(mode, cutoff) => b.with_effect(FilterBuilder::new().mode(mode).cutoff(cutoff).resonance(0.3)),
 		FxKind::Delay(t) => b.with_effect(DelayBuilder::new().delay_time(Duration::from_nanos(t)).feedback(Decibels(-6.0)).mix(Mix(0.5))),
+		FxKind::Compressor(a, r) => b.with_effect(
+			CompressorBuilder::new().threshold(-30.0).ratio(4.0).attack_duration(Duration::from_micros(a)).release_duration(Duration::from_micros(r)),
+		),
+		FxKind::Reverb => b.with_effect(ReverbBuilder::new().feedback(0.8).damping(0.2).stereo_width(0.7).mix(Mix(0.6))),
+		FxKind::Eq(f) => b.with_effect(kira::effect::eq_filter::EqFilterBuilder::new(kira::effect::eq_filter::EqFilterKind::Bell, f, Decibels(6.0), 0.7)),
 	};
+	// the reverb's first echo comes after 1116/44100 s: render 80 ms
+	let ncb = if fx == FxKind::Reverb { (0.08 * r2 as f64 / 100.0) as usize + 1 } else { 6 };
 	let render = |changed: bool| -> Vec<u32> {
 		let mut m = crate::backend::simple_manager(if changed { r1 } else { r2 }, 32);
 		let mut tr = None;
@@ -719,14 +749,14 @@ fn effect_across_change(s: &mut Session, rng: &mut Rng, fx: FxKind, order: Order
 		m.backend_mut().callback(40, 2);
 		let _h = tr.play(data.clone()).unwrap();
 		let mut out = vec![];
-		for _ in 0..6 {
+		for _ in 0..ncb {
 			out.extend(m.backend_mut().callback(100, 2).iter().map(|x| x.to_bits()));
 		}
 		out
 	};
 	let a = render(true);
 	let b = render(false);
-	s.eval_only(&format!("effect_across_change_{}", match fx { FxKind::Filter(..) => "filter", FxKind::Delay(_) => "delay" }));
+	s.eval_only(&format!("effect_across_change_{}", fx.name()));
 	if a.iter().all(|x| f32::from_bits(*x) == 0.0) {
 		s.fail(format!("{fx:?} {order:?} {r1}->{r2}"), "scene is silent (harness problem)".into(), None);
 	}
@@ -889,6 +919,380 @@ fn check_scene(s: &mut Session, kind: &str, segs: &[(u32, usize, usize)], ibs: u
 	}
 }
 
+
+// ---------------------------------------------------------------------------------------------
+// Part D: Reverb line lengths and Compressor time constants, in seconds
+// ---------------------------------------------------------------------------------------------
+/// positions of the first three non-zero frames on the left and on the right channel (-1: fewer than three)
+fn first_taps(out: &[Frame]) -> Vec<i128> {
+	let mut v = vec![];
+	for right in [false, true] {
+		let mut k = 0;
+		for (i, f) in out.iter().enumerate() {
+			if (if right { f.right } else { f.left }) != 0.0 {
+				v.push(i as i128);
+				k += 1;
+				if k == 3 {
+					break;
+				}
+			}
+		}
+		for _ in k..3 {
+			v.push(-1);
+		}
+	}
+	v
+}
+/// the tunings (frames at 44.1 kHz) of the lines whose echoes `first_taps` sees: left 1116 1188 1277, right the same + 23
+const TAP_TUNINGS: [u32; 6] = [1116, 1188, 1277, 1116 + 23, 1188 + 23, 1277 + 23];
+/// frames to render at `sr` so that the three first echoes of either side are in
+fn taps_window(sr: u32) -> usize {
+	(1320.0 * sr as f64 / 44100.0) as usize + 8
+}
+/// MONITOR (reverb_time_error, closed at the lower end because the binary64 product may come out one frame short --
+/// reverb_line_f64_one_frame_short): every echo comes after tuning/44100 seconds, at most one frame early, never late
+fn check_taps(s: &mut Session, desc: &str, sr: u32, taps: &[i128]) {
+	for (k, (tap, tuning)) in taps.iter().zip(TAP_TUNINGS).enumerate() {
+		let side = if k < 3 { "left" } else { "right" };
+		let t_want = tuning as f64 / 44100.0;
+		if *tap < 0 {
+			s.fail(desc.to_string(), format!("{side} echo {} of an impulse never came within {:.3} ms at {sr} Hz", k % 3 + 1, taps_window(sr) as f64 * 1e3 / sr as f64), None);
+			continue;
+		}
+		// in frames, exactly: tuning * sr / 44100 - 1 <= tap <= tuning * sr / 44100   (tap >= 1 always)
+		let num = tuning as i128 * sr as i128;
+		let ok = (*tap * 44100 <= num && (*tap + 1) * 44100 >= num) || (*tap == 1 && num < 44100);
+		if !ok {
+			s.fail(
+				desc.to_string(),
+				format!(
+					"{side} channel: echo {} of an impulse comes after {} frames = {:.4} ms at {sr} Hz; the line is tuned to {tuning} frames at 44.1 kHz = {:.4} ms (one frame = {:.4} ms): the delay does not keep its value in seconds",
+					k % 3 + 1,
+					tap,
+					*tap as f64 * 1e3 / sr as f64,
+					t_want * 1e3,
+					1e3 / sr as f64
+				),
+				None,
+			);
+		}
+	}
+}
+/// a real Reverb driven directly: `init(rates[0])`, then `on_change_sample_rate(rates[i])`; an impulse after each
+fn reverb_taps_direct(rates: &[u32], feedback: f64, damping: f64) -> Vec<i128> {
+	let info = kira::info::MockInfoBuilder::new().build();
+	let mut e = ReverbBuilder::new().feedback(feedback).damping(damping).stereo_width(1.0).mix(Mix::WET).build().0;
+	let mut out = vec![];
+	for (i, r) in rates.iter().enumerate() {
+		if i == 0 {
+			e.init(*r, 64);
+		} else {
+			e.on_change_sample_rate(*r);
+		}
+		let n = taps_window(*r);
+		let mut buf = vec![Frame::ZERO; n];
+		buf[0] = Frame::new(1.0, 0.5);
+		// in pieces, as a track would hand them over
+		for c in buf.chunks_mut(64) {
+			e.process(c, 1.0 / *r as f64, &info);
+		}
+		out.extend(first_taps(&buf));
+	}
+	out
+}
+
+/// a signal source at the head of a track's effect chain that the harness switches from outside: exact timing, no resampler
+#[derive(Clone)]
+struct SourceCtl {
+	level: Arc<AtomicU32>,
+	impulse: Arc<AtomicBool>,
+}
+impl SourceCtl {
+	fn new() -> Self {
+		SourceCtl { level: Arc::new(AtomicU32::new(0f32.to_bits())), impulse: Arc::new(AtomicBool::new(false)) }
+	}
+	fn set_level(&self, l: f32) {
+		self.level.store(l.to_bits(), Ordering::SeqCst);
+	}
+}
+struct Source(SourceCtl);
+impl Effect for Source {
+	fn process(&mut self, input: &mut [Frame], _dt: f64, _info: &Info) {
+		if self.0.impulse.swap(false, Ordering::SeqCst) {
+			if let Some(f) = input.first_mut() {
+				*f = Frame::new(f.left + 1.0, f.right + 0.5);
+			}
+		}
+		let l = f32::from_bits(self.0.level.load(Ordering::SeqCst));
+		if l != 0.0 {
+			for f in input.iter_mut() {
+				*f = Frame::new(f.left + l, f.right + l);
+			}
+		}
+	}
+}
+struct SourceBuilder(SourceCtl);
+impl EffectBuilder for SourceBuilder {
+	type Handle = ();
+	fn build(self) -> (Box<dyn Effect>, ()) {
+		(Box::new(Source(self.0)), ())
+	}
+}
+
+/// what the effect instance lives through before the measurement
+#[derive(Clone, Debug, PartialEq)]
+enum Pre {
+	Cb(usize),
+	Change(u32),
+	/// compressor only, after the add: handle.set_attack_duration / set_release_duration (microseconds), no tween time
+	SetAttack(u64),
+	SetRelease(u64),
+}
+#[derive(Clone, Debug)]
+struct FxHist {
+	sr0: u32,
+	ibs: usize,
+	/// callback size used for the measurement
+	fpc: usize,
+	before_add: Vec<Pre>,
+	after_add: Vec<Pre>,
+}
+impl FxHist {
+	fn final_rate(&self) -> u32 {
+		let mut r = self.sr0;
+		for p in self.before_add.iter().chain(&self.after_add) {
+			if let Pre::Change(x) = p {
+				r = *x;
+			}
+		}
+		r
+	}
+	fn describe(&self, what: &str) -> String {
+		format!(
+			"device starts at {} Hz (internal buffer {}); audio thread {:?}; add_sub_track with {what}; then {:?}; then the measurement at {} Hz in callbacks of {} frames",
+			self.sr0,
+			self.ibs,
+			self.before_add,
+			self.after_add,
+			self.final_rate(),
+			self.fpc
+		)
+	}
+}
+fn now_tween() -> Tween {
+	Tween { start_time: StartTime::Immediate, duration: Duration::ZERO, easing: Easing::Linear }
+}
+fn gen_fx_hist(rng: &mut Rng, compressor: bool) -> FxHist {
+	let sr0 = gen_rate(rng, false);
+	let ibs = *rng.pick(&[16usize, 32, 128, 37]);
+	let fpc = *rng.pick(&[64usize, 100, 256, 37]);
+	let mut before_add = vec![];
+	let mut after_add = vec![];
+	let gen = |rng: &mut Rng, after: bool| match rng.below(if after && compressor { 8 } else { 6 }) {
+		0 | 1 | 2 => Pre::Cb(rng.below(3 * fpc as u64) as usize),
+		3 | 4 | 5 => Pre::Change(gen_rate(rng, false)),
+		6 => Pre::SetAttack(500 + rng.below(10_000)),
+		_ => Pre::SetRelease(500 + rng.below(10_000)),
+	};
+	for _ in 0..rng.below(3) {
+		before_add.push(gen(rng, false));
+	}
+	for _ in 0..rng.below(6) {
+		after_add.push(gen(rng, true));
+	}
+	FxHist { sr0, ibs, fpc, before_add, after_add }
+}
+
+/// (attack, release) time constants in seconds measured on a real Compressor on a sub-track that lived through `h`;
+/// Err: the output was not an exponential approach
+fn compressor_time_constants(h: &FxHist, attack_us: u64, release_us: u64) -> (Result<f64, String>, Result<f64, String>, u64, u64) {
+	let ctl = SourceCtl::new();
+	let mut m = crate::backend::simple_manager(h.sr0, h.ibs);
+	let mut sr = h.sr0;
+	let do_pre = |m: &mut crate::backend::Mgr, p: &Pre, sr: &mut u32| match p {
+		Pre::Cb(n) => {
+			m.backend_mut().callback(*n, 2);
+		}
+		Pre::Change(r) => {
+			m.backend_mut().set_sample_rate(*r);
+			*sr = *r;
+		}
+		_ => {}
+	};
+	for p in &h.before_add {
+		do_pre(&mut m, p, &mut sr);
+	}
+	let mut b = TrackBuilder::new();
+	b.add_effect(SourceBuilder(ctl.clone()));
+	let mut ch = b.add_effect(
+		CompressorBuilder::new().threshold(-24.0).ratio(4.0).attack_duration(Duration::from_micros(attack_us)).release_duration(Duration::from_micros(release_us)),
+	);
+	let _track = m.add_sub_track(b).unwrap();
+	let (mut a_us, mut r_us) = (attack_us, release_us);
+	for p in &h.after_add {
+		match p {
+			Pre::SetAttack(us) => {
+				ch.set_attack_duration(Duration::from_micros(*us), now_tween());
+				a_us = *us;
+			}
+			Pre::SetRelease(us) => {
+				ch.set_release_duration(Duration::from_micros(*us), now_tween());
+				r_us = *us;
+			}
+			p => do_pre(&mut m, p, &mut sr),
+		}
+	}
+	// silence: the track is picked up, pending commands are read and their (zero-length) tweens finish
+	for _ in 0..2 {
+		m.backend_mut().callback(h.fpc, 2);
+	}
+	let mut phase = |level: f32, secs: f64| -> Vec<f32> {
+		ctl.set_level(level);
+		let want = (secs * sr as f64) as usize + 8;
+		let mut out: Vec<f32> = vec![];
+		while out.len() < want {
+			let o = m.backend_mut().callback(h.fpc, 2);
+			out.extend(o.chunks(2).map(|c| c[0]));
+		}
+		out
+	};
+	// a step to full scale (24 dB over the threshold) for 3 attack times, then down to -40 dB (below the threshold)
+	let up = phase(1.0, 3.0 * a_us as f64 * 1e-6);
+	let down = phase(0.01, 1.5 * r_us as f64 * 1e-6);
+	// with a constant input ln(out[n]) = y_inf + C * s^n: three equally spaced frames give s without knowing y_inf or C
+	let tc = |y: &[f32], nominal_us: u64| -> Result<f64, String> {
+		let tau = nominal_us as f64 * 1e-6 * sr as f64; // frames
+		let n1 = ((0.2 * tau) as usize).max(1);
+		let d = ((0.5 * tau) as usize).max(2);
+		let l = |n: usize| (y[n] as f64).ln();
+		let (y1, y2, y3) = (l(n1), l(n1 + d), l(n1 + 2 * d));
+		let q = (y1 - y2) / (y2 - y3);
+		if !(q.is_finite() && q > 1.0) {
+			return Err(format!("output at frames {n1}, {}, {} after the step: {:e}, {:e}, {:e} -- no exponential approach with a time constant near the configured one (settled far too early, or not moving)", n1 + d, n1 + 2 * d, y[n1], y[n1 + d], y[n1 + 2 * d]));
+		}
+		Ok(d as f64 / q.ln() / sr as f64)
+	};
+	(tc(&up, a_us), tc(&down, r_us), a_us, r_us)
+}
+fn check_compressor(s: &mut Session, kind: &str, h: &FxHist, attack_us: u64, release_us: u64) {
+	let (ta, tr, a_us, r_us) = compressor_time_constants(h, attack_us, release_us);
+	s.eval_only(kind);
+	let desc = h.describe(&format!("Compressor(threshold -24 dB, ratio 4, attack {attack_us} us, release {release_us} us)"));
+	// MONITOR compressor_envelope_in_seconds: the measured time constant is the configured duration (2 %: the
+	// coefficient is rounded to binary32, which moves 1 - coefficient by up to 0.1 % at 192 kHz)
+	for (name, got, want_us) in [("attack", ta, a_us), ("release", tr, r_us)] {
+		let want = want_us as f64 * 1e-6;
+		match got {
+			Ok(t) if (t - want).abs() <= 0.02 * want => {}
+			Ok(t) => s.fail(
+				desc.clone(),
+				format!("the compressor's {name} duration is {want:.6} s but its gain approaches the target with a time constant of {t:.6} s (factor {:.4}) at {} Hz: the duration does not mean seconds after this history", t / want, h.final_rate()),
+				None,
+			),
+			Err(e) => s.fail(desc.clone(), format!("the compressor's {name} duration is {want:.6} s; {e}"), None),
+		}
+	}
+}
+
+/// echo positions of a real Reverb (fully wet, stereo width 1) on a sub-track that lived through `h`, at the final rate
+fn reverb_taps_scene(h: &FxHist) -> Vec<i128> {
+	let ctl = SourceCtl::new();
+	let mut m = crate::backend::simple_manager(h.sr0, h.ibs);
+	let mut sr = h.sr0;
+	let mut track = None;
+	for (i, p) in h.before_add.iter().map(|p| (0, p)).chain([(1, &Pre::Cb(0))]).chain(h.after_add.iter().map(|p| (2, p))) {
+		if i == 1 {
+			let mut b = TrackBuilder::new();
+			b.add_effect(SourceBuilder(ctl.clone()));
+			b.add_effect(ReverbBuilder::new().stereo_width(1.0).mix(Mix::WET));
+			track = Some(m.add_sub_track(b).unwrap());
+			continue;
+		}
+		match p {
+			Pre::Cb(n) => {
+				m.backend_mut().callback(*n, 2);
+			}
+			Pre::Change(r) => {
+				m.backend_mut().set_sample_rate(*r);
+				sr = *r;
+			}
+			_ => {}
+		}
+	}
+	m.backend_mut().callback(h.fpc, 2);
+	ctl.impulse.store(true, Ordering::SeqCst);
+	let want = taps_window(sr);
+	let mut out: Vec<Frame> = vec![];
+	while out.len() < want {
+		out.extend(m.backend_mut().callback_stereo(h.fpc));
+	}
+	drop(track);
+	first_taps(&out)
+}
+fn check_reverb_scene(s: &mut Session, kind: &str, h: &FxHist) {
+	let taps = reverb_taps_scene(h);
+	let sr = h.final_rate();
+	s.case(kind, format!("CReverb [{}]", sr), &taps, Some(format!("rv{:?}", h)));
+	check_taps(s, &h.describe("Reverb(fully wet, stereo width 1) behind an impulse source"), sr, &taps);
+}
+
+fn part_d(s: &mut Session, rng: &mut Rng, args: &Args) {
+	// ---- reverb, driven directly: every usual rate from the start, and sequences of changes
+	for r in RATES.iter().chain([88200u32, 32000, 15435].iter()) {
+		let obs = reverb_taps_direct(&[*r], 0.9, 0.1);
+		s.case("reverb_taps", format!("CReverb [{}]", r), &obs, Some(format!("rvd{r}")));
+		check_taps(s, &format!("Reverb(fully wet, stereo width 1).init({r}); impulse"), *r, &obs);
+	}
+	let nr: u64 = (if args.thorough { 400 } else { 30 }) * args.budget_mul;
+	for _ in 0..nr {
+		let rates: Vec<u32> = (0..1 + rng.below(3)).map(|_| gen_rate(rng, false)).collect();
+		let (fb, damp) = (rng.unit_f64() * 0.95, rng.unit_f64());
+		let obs = reverb_taps_direct(&rates, fb, damp);
+		s.case("reverb_taps", format!("CReverb [{}]", rates.iter().map(|r| r.to_string()).collect::<Vec<_>>().join("; ")), &obs, Some(format!("rvd{rates:?}")));
+		for (i, r) in rates.iter().enumerate() {
+			check_taps(s, &format!("Reverb(feedback {fb}, damping {damp}, fully wet, stereo width 1): init / on_change_sample_rate through the rates {rates:?}; impulse after step {i}"), *r, &obs[6 * i..6 * i + 6]);
+		}
+	}
+	// ---- reverb and compressor on a sub-track of a real manager
+	let fixed = |sr0: u32, before_add: Vec<Pre>, after_add: Vec<Pre>| FxHist { sr0, ibs: 32, fpc: 100, before_add, after_add };
+	let orders = |r1: u32, r2: u32| {
+		vec![
+			fixed(r2, vec![], vec![]),
+			fixed(r1, vec![], vec![Pre::Cb(100), Pre::Cb(100), Pre::Change(r2), Pre::Cb(100)]), // in the arena, processed, then the change
+			fixed(r1, vec![], vec![Pre::Change(r2)]),                                          // queued during the change
+			fixed(r1, vec![Pre::Cb(100), Pre::Change(r2)], vec![]),                           // change, then add
+			fixed(r1, vec![], vec![Pre::Cb(100), Pre::Change(r2), Pre::Change(r1), Pre::Cb(50), Pre::Change(r2)]),
+		]
+	};
+	let pairs: &[(u32, u32)] = if args.thorough { &[(44100, 48000), (48000, 44100), (8000, 192000), (96000, 11025), (22050, 44100), (48000, 96000)] } else { &[(44100, 48000), (96000, 22050), (48000, 96000)] };
+	for (r1, r2) in pairs {
+		for h in orders(*r1, *r2) {
+			check_reverb_scene(s, "reverb_scene_orders", &h);
+			check_compressor(s, "compressor_orders", &h, 5_000, 8_000);
+		}
+	}
+	// the numbers of the report that made us add this: 50 ms, device at 1000 Hz for five callbacks, then 4000 Hz
+	check_compressor(
+		s,
+		"compressor_orders",
+		&FxHist { sr0: 1000, ibs: 100, fpc: 100, before_add: vec![], after_add: vec![Pre::Cb(100), Pre::Cb(100), Pre::Cb(100), Pre::Cb(100), Pre::Cb(100), Pre::Change(4000), Pre::Cb(100)] },
+		50_000,
+		50_000,
+	);
+	// a duration set through the handle BEFORE the change must mean seconds after it as well
+	check_compressor(s, "compressor_orders", &fixed(44100, vec![], vec![Pre::Cb(100), Pre::SetAttack(3_000), Pre::SetRelease(6_000), Pre::Cb(100), Pre::Cb(100), Pre::Change(96000)]), 10_000, 10_000);
+	let nc: u64 = (if args.thorough { 600 } else { 60 }) * args.budget_mul;
+	for i in 0..nc {
+		let h = gen_fx_hist(rng, true);
+		check_compressor(s, "compressor_random", &h, 1_000 + rng.below(15_000), 1_000 + rng.below(15_000));
+		if i % 2 == 0 {
+			let h = gen_fx_hist(rng, false);
+			check_reverb_scene(s, "reverb_scene_random", &h);
+		}
+	}
+	s.notes.push("Part D: Reverb echo positions (3 per side) after init / on_change_sample_rate sequences and on sub-tracks that lived through add / callback / change orders; Compressor attack and release time constants measured in seconds after the same kinds of history incl. set_attack_duration / set_release_duration before a change".to_string());
+}
+
 pub fn run(args: &Args) {
 	let mut rng = Rng::new(args.seed ^ 0xC16);
 	let mut s = Session::new(
@@ -952,6 +1356,9 @@ pub fn run(args: &Args) {
 		FxKind::Filter(FilterMode::BandPass, 500.0),
 		FxKind::Filter(FilterMode::Notch, 10000.0),
 		FxKind::Delay(2_000_000),
+		FxKind::Compressor(1_000, 3_000),
+		FxKind::Reverb,
+		FxKind::Eq(2000.0),
 	];
 	let pairs: &[(u32, u32)] = if args.thorough { &[(44100, 48000), (48000, 44100), (8000, 192000), (96000, 11025), (22050, 44100)] } else { &[(44100, 48000), (96000, 11025)] };
 	for fx in fxs {
@@ -966,6 +1373,8 @@ pub fn run(args: &Args) {
 			filter_ratio_check(&mut s, &mut rng, sr, f);
 		}
 	}
+	// ---- Part D: reverb lines and compressor time constants in seconds
+	part_d(&mut s, &mut rng, args);
 	// ---- Part C: scenes
 	let sound_rates = [8000u32, 22050, 44100, 48000];
 	let mut sc = 0u64;
